@@ -890,7 +890,7 @@ def run_c11(F, R, tier):
     inert_none_path(F, R, names, 'Q1')
     R.floor('K1-impulse', 5)
     R.floor('K2-coef', 2)
-    R.decline('the non-linear tails (TrendFlex/ReFlex normalisation algebra beyond the self-normalised form, LaguerreRSI CU/CD bookkeeping and lag convention, Fisher normalisation order, PFE ratio), '
+    R.decline('the non-linear tails (TrendFlex/ReFlex normalisation algebra beyond the self-normalised form, LaguerreRSI CU/CD bookkeeping and lag convention, Fisher normalisation order), '
               'initial-state/warm-up behaviour, and CyberCycle\'s smoothing layout (the statement is silent) are not decided')
 
 
